@@ -85,7 +85,7 @@ pub fn params(profile: &str) -> Params {
     let fin_all = vec![
         (M::Read, 6), (M::ClearSlot, 4), (M::ChildToRoot, 5), (M::ChildToNode, 3), (M::GrandToRoot, 2), (M::SelfWeakToRoot, 2), (M::WeakToRoot, 3),
         (M::WeakToDrop, 2), (M::DropRoot, 4), (M::Alloc, 3), (M::AllocDrop, 2), (M::Collect, 2), (M::TryUnwrapRoot, 1), (M::FinAgainRoot, 1),
-        (M::DowngradeRoot, 1), (M::MarkAliveRoot, 1), (M::SelfWeakToSlot, 1), (M::WeakToSlot, 1), (M::AllocCyclic, 1),
+        (M::DowngradeRoot, 1), (M::MarkAliveRoot, 1), (M::SelfWeakToSlot, 1), (M::WeakToSlot, 1), (M::AllocCyclic, 1), (M::CollectCatch, 1),
     ];
     let drop_all = vec![(M::WeakToRoot, 4), (M::SelfWeakToRoot, 2), (M::Collect, 2), (M::TryUnwrapRoot, 1), (M::FinAgainRoot, 1), (M::Alloc, 1)];
     let act_all = vec![(M::WeakToRoot, 3), (M::WeakToDrop, 2), (M::Alloc, 2), (M::AllocDrop, 2), (M::CleanOther, 3), (M::Collect, 1), (M::DropRoot, 1)];
@@ -149,7 +149,7 @@ pub fn params(profile: &str) -> Params {
             p.drop_minis = vec![(M::WeakToRoot, 8), (M::SelfWeakToRoot, 4), (M::Collect, 1)];
         }
         "cleaner" => {
-            set(&mut p.w, &[(O::Register, 14), (O::Clean, 8), (O::DropCleanable, 4), (O::Downgrade, 5), (O::Collect, 8)]);
+            set(&mut p.w, &[(O::Register, 14), (O::Clean, 8), (O::DropCleanable, 4), (O::Downgrade, 5), (O::Collect, 8), (O::BulkRegister, 3), (O::BulkClean, 3)]);
             p.fin_rate = 10;
             p.drop_rate = 5;
             p.cleaner_idioms = true;
@@ -165,8 +165,8 @@ pub fn params(profile: &str) -> Params {
         "nesting" => {
             p.fin_rate = if HAS_FIN { 70 } else { 0 };
             p.drop_rate = 60;
-            p.fin_minis = vec![(M::Collect, 6), (M::Alloc, 5), (M::AllocDrop, 3), (M::AllocCyclic, 3), (M::TryUnwrapRoot, 4), (M::FinAgainRoot, 4), (M::DropRoot, 4), (M::Read, 1)];
-            p.drop_minis = vec![(M::Collect, 6), (M::Alloc, 4), (M::AllocCyclic, 2), (M::TryUnwrapRoot, 3), (M::FinAgainRoot, 3)];
+            p.fin_minis = vec![(M::Collect, 6), (M::CollectCatch, 3), (M::Alloc, 5), (M::AllocDrop, 3), (M::AllocCyclic, 3), (M::TryUnwrapRoot, 4), (M::FinAgainRoot, 4), (M::DropRoot, 4), (M::Read, 1)];
+            p.drop_minis = vec![(M::Collect, 6), (M::CollectCatch, 2), (M::Alloc, 4), (M::AllocCyclic, 2), (M::TryUnwrapRoot, 3), (M::FinAgainRoot, 3)];
             p.act_minis = vec![(M::Collect, 5), (M::Alloc, 4), (M::AllocDrop, 3), (M::AllocCyclic, 2), (M::CleanOther, 2)];
             p.auto_rate = 70;
             set(&mut p.w, &[(O::Register, 5), (O::Clean, 3)]);
@@ -199,7 +199,7 @@ pub fn params(profile: &str) -> Params {
             p.exact_threshold_prologue = 25;
         }
         "saturate" => {
-            set(&mut p.w, &[(O::BulkClone, 10), (O::BulkUpgrade, 6), (O::BulkWeakClone, 6), (O::BulkDowngrade, 6), (O::BulkDrop, 6), (O::BulkWeakDrop, 4), (O::Clone, 8), (O::Upgrade, 6), (O::Downgrade, 6), (O::WeakClone, 4)]);
+            set(&mut p.w, &[(O::BulkClone, 10), (O::BulkUpgrade, 6), (O::BulkWeakClone, 6), (O::BulkDowngrade, 6), (O::BulkDrop, 6), (O::BulkWeakDrop, 4), (O::Clone, 8), (O::Upgrade, 6), (O::Downgrade, 6), (O::WeakClone, 4), (O::BulkRegister, 4), (O::BulkClean, 3)]);
             p.ops = (4, 12, 30);
             p.max_objects = 6;
             p.idiom_rate = 10;
@@ -402,6 +402,8 @@ impl<'a> Gen<'a> {
             O::BulkUpgrade => Op::new(code, &[self.r.below(self.sh.weaks.max(1) as u64) as i64, self.bulk_n(16382)]),
             O::BulkWeakClone | O::BulkWeakDrop => Op::new(code, &[self.r.below(self.sh.weaks.max(1) as u64) as i64, self.bulk_n(32767)]),
             O::BulkDowngrade => Op::new(code, &[h, self.bulk_n(32767)]),
+            O::BulkRegister => Op::new(code, &[n, if self.r.chance(1, 3) { self.bulk_n(32767) } else { 1 + self.r.below(40) as i64 }]),
+            O::BulkClean => Op::new(code, &[n, 1 + self.r.below(60) as i64]),
             O::Compare => Op::new(O::Compare, &[h, self.handle_guess()]),
             O::Collect | O::Quiesce | O::Observe | O::NewDefault => Op::new(code, &[]),
             _ => Op::new(code, &[h]),
@@ -609,7 +611,14 @@ fn generate_threads(seed: u64, index: u64, scale: u64) -> Program {
         let mut ops = sub.ops;
         let keep = 3 + r.below(14 * scale) as usize;
         ops.truncate(keep);
-        prog.threads.push(ThreadPlan { tls_first: r.chance(1, 2), tls_keep: r.below(4) as u32, ops, knobs: sub.knobs });
+        // a third of the threads also have a callback panic injected into their own program
+        let faults = if r.chance(1, 3) {
+            let kind = *r.pick(&[FaultKind::Trace, FaultKind::Trace, FaultKind::TraceEdge, FaultKind::Finalize, FaultKind::Drop]);
+            vec![Fault { kind, k: r.below(6) as u32 }]
+        } else {
+            vec![]
+        };
+        prog.threads.push(ThreadPlan { tls_first: r.chance(1, 2), tls_keep: r.below(4) as u32, ops, knobs: sub.knobs, faults });
     }
     let total: usize = prog.threads.iter().map(|t| t.ops.len() + 3).sum();
     let style = r.below(3);
